@@ -659,3 +659,57 @@ package types
 //@   ensures len(vs.Validators) == 0 ==> proposer == nil
 // The sign bytes of a proposal are computed from the wire proposal; nothing is modified.
 //@ trusted func ProposalSignBytes(chainID string, p *kproto.Proposal) (r []byte)
+
+// ---------------------------------------------------------------- C12: one rotation step
+// Members are pairwise distinct objects (a set built by NewValidatorSet/Copy copies every member).
+//@ spec func distinctVals(vs *ValidatorSet) bool = forall i int, j int :: 0 <= i && i < j && j < len(vs.Validators) ==> vs.Validators[i] != vs.Validators[j]
+// Priorities and powers small enough that one step cannot overflow int64 (the window invariant keeps
+// priorities within 2*total <= 2^61 in magnitude).
+//@ spec func stepBounds(vs *ValidatorSet) bool = forall i int :: 0 <= i && i < len(vs.Validators) ==> -4611686018427387904 < vs.Validators[i].ProposerPriority && vs.Validators[i].ProposerPriority < 4611686018427387904
+
+// argmaxVal picks a member, and no member has more priority than it.
+//@ spec func argmaxIdx(vals []*Validator, n int) int = ite(n <= 1, 0, ite(better(argmaxVal(vals, n-1), vals[n-1]) == vals[n-1], n-1, argmaxIdx(vals, n-1)))
+//@ lemma argmaxIsMember(vals []*Validator, n int)
+//@   for C12
+//@   requires 1 <= n && n <= len(vals) && (forall i int :: 0 <= i && i < n ==> vals[i] != nil)
+//@   ensures 0 <= argmaxIdx(vals, n) && argmaxIdx(vals, n) < n && argmaxVal(vals, n) == vals[argmaxIdx(vals, n)]
+//@   induction n
+//@   pattern argmaxVal(vals, n)
+//@ lemma argmaxIsMax(vals []*Validator, n int, i int)
+//@   for C12
+//@   requires 0 <= i && i < n && n <= len(vals) && (forall k int :: 0 <= k && k < n ==> vals[k] != nil)
+//@   ensures argmaxVal(vals, n) != nil && vals[i].ProposerPriority <= argmaxVal(vals, n).ProposerPriority
+//@   induction n
+//@   pattern argmaxVal(vals, n); vals[i].ProposerPriority
+
+// incrementProposerPriority: every member gains its voting power; then the member with the most
+// priority (ties by address) pays the total voting power and is returned as the proposer.
+//@ func (vs *ValidatorSet) incrementProposerPriority() (r *Validator)
+//@   for C12
+//@   uses argmaxIsMember
+//@   uses argmaxIsMax
+//@   requires wfVals(vs) && len(vs.Validators) > 0 && distinctVals(vs) && stepBounds(vs)
+//@   modifies Validator.ProposerPriority, vs.totalVotingPower
+//@   ensures [proposerIsMember] exists k int :: 0 <= k && k < len(vs.Validators) && r == vs.Validators[k]
+//@   ensures [everyoneElseGainsPower] forall i int :: 0 <= i && i < len(vs.Validators) && vs.Validators[i] != r ==> vs.Validators[i].ProposerPriority == old(vs.Validators[i].ProposerPriority) + vs.Validators[i].VotingPower
+//@   ensures [proposerPaysTotal] r.ProposerPriority == old(r.ProposerPriority) + r.VotingPower - sumPow(vs.Validators, len(vs.Validators))
+//@   ensures [proposerHadMostPriority] forall i int :: 0 <= i && i < len(vs.Validators) ==> old(vs.Validators[i].ProposerPriority) + vs.Validators[i].VotingPower <= old(r.ProposerPriority) + r.VotingPower
+//@   loop 1:
+//@     invariant 0 <= iter && iter <= len(vs.Validators)
+//@     invariant forall k int :: 0 <= k && k < iter ==> vs.Validators[k].ProposerPriority == old(vs.Validators[k].ProposerPriority) + vs.Validators[k].VotingPower
+//@     invariant forall k int :: iter <= k && k < len(vs.Validators) ==> vs.Validators[k].ProposerPriority == old(vs.Validators[k].ProposerPriority)
+
+// Centring: one common amount (the average, computed with big integers) is subtracted from every
+// member's priority, clipped to int64; relative order is untouched and nothing else changes.
+//@ func (vs *ValidatorSet) computeAvgProposerPriority() (r int64)
+//@   for C12
+//@   requires vs != nil && len(vs.Validators) > 0 && (forall i int :: 0 <= i && i < len(vs.Validators) ==> vs.Validators[i] != nil)
+//@ func (vs *ValidatorSet) shiftByAvgProposerPriority()
+//@   for C12
+//@   requires vs != nil && len(vs.Validators) > 0 && (forall i int :: 0 <= i && i < len(vs.Validators) ==> vs.Validators[i] != nil) && distinctVals(vs)
+//@   modifies Validator.ProposerPriority
+//@   ensures [sameShiftForAll] forall i int :: 0 <= i && i < len(vs.Validators) ==> vs.Validators[i].ProposerPriority == max(-9223372036854775808, min(9223372036854775807, old(vs.Validators[i].ProposerPriority) - avgProposerPriority))
+//@   loop 1:
+//@     invariant 0 <= iter && iter <= len(vs.Validators)
+//@     invariant forall k int :: 0 <= k && k < iter ==> vs.Validators[k].ProposerPriority == max(-9223372036854775808, min(9223372036854775807, old(vs.Validators[k].ProposerPriority) - avgProposerPriority))
+//@     invariant forall k int :: iter <= k && k < len(vs.Validators) ==> vs.Validators[k].ProposerPriority == old(vs.Validators[k].ProposerPriority)
